@@ -102,6 +102,24 @@ CHECKS["C04"] = dict(
     technique="Lean 4 proof (ordered-field lemmas on the k(T) table, ring identities, shared element-level refinement) + GetK correspondence + independent nonlinear weak-form oracle on solver output",
 )
 
+CHECKS["C05"] = dict(
+    category="proof",
+    text=("Lean theorems over Model/Magnetics.lean and the shared element model: laminated-material permeabilities are the "
+          "parallel / series combinations of iron and air and reduce to the bulk values at fill 1; the current density a "
+          "circuit applies reproduces the circuit current exactly for stranded (flat density) and conducting (density "
+          "proportional to conductivity) regions; the reluctivity element matrix Mx/mu2 + My/mu1 is the C03 element with "
+          "unit depth (Galerkin form, symmetry, zero row sums, exactness for affine potentials); consistent-mass eddy "
+          "matrix symmetric with row sums a/3. Tied to the code on every run: the permeability the REAL Static2D assigns "
+          "to every element equals the Float instance of lamMu bit for bit (in-process harness). The global property "
+          "(free-node equations of magnetostatics and of the time-harmonic complex system, prescribed A(x,y) with phase, "
+          "magnets, point currents, mixed BC, per-label circuit records = applied density, total current per circuit "
+          "region) is decided per run by an independent SI assembly on the .ans the real fsolver wrote (labelled "
+          "partial: no Lean model of the whole Static2D / Harmonic2D assembly; air-gap elements, nonlinear and "
+          "incremental materials are outside the property's scope)."),
+    design_ref="DESIGN.md section 3, C05",
+    technique="Lean 4 proof (field identities for lamination and circuit formulas, shared element-level refinement) + element-permeability correspondence + independent weak-form oracle (static and complex harmonic) on solver output",
+)
+
 NOT_YET = "check not built yet in this round; planned per DESIGN.md section 3 (Lean model + correspondence)"
 
 
